@@ -586,8 +586,47 @@ def literal_parsing_rule(ck, facts):
                    % (st.kind, st.what, st.detail), st.loc)
 
 
+def sibling_arms_rule(ck, facts):
+    """R13.13: agreement between the sibling arms of a numeric operation: in SparqlNumber::abs every variant's arm applies an
+    absolute-value operation (`abs`, `checked_abs`, `unsigned_abs`, `magnitude`); an arm that returns its operand unchanged is
+    a copy-paste from ceil/floor/round, where integers are indeed their own result.  And the native arm does not use the
+    overflowing `isize::abs` (|isize::MIN| does not fit)."""
+    fns = facts.find_fns(crate="sophia_sparql", name_re=r"^value::_number::SparqlNumber::abs$")
+    if len(fns) != 1:
+        ck.bad("R13.13", "R13.13@SparqlNumber::abs#anchor", "anchor-missing (%d)" % len(fns))
+        return
+    fn = fns[0]
+    sw = [(bi, b["t"]) for bi, b in enumerate(fn.blocks) if b["t"]["t"] == "switch"
+          and (b["t"].get("variants") or {}).get("enum", "").endswith("_number::SparqlNumber")]
+    if len(sw) != 1:
+        ck.bad("R13.13", "R13.13@SparqlNumber::abs#shape", "expected one match on SparqlNumber (found %d)" % len(sw), fn.loc)
+        return
+    bi, t = sw[0]
+    names = t["variants"]["names"]
+    targets = {names[v]: tb for v, tb in t["vals"] if v in names}
+    rest = set(names.values()) - set(targets)
+    if len(rest) == 1:
+        targets[rest.pop()] = t["else"]
+    bad = []
+    for var, tb in sorted(targets.items()):
+        others = {x for v2, x in targets.items() if v2 != var}
+        region = fn.reachable(tb, avoid=others)
+        calls = [(fn.blocks[b]["t"]["f"].get("res_name") or fn.blocks[b]["t"]["f"].get("name") or "") for b in region
+                 if fn.blocks[b]["t"]["t"] == "call"]
+        if not any(re.search(r"::(abs|checked_abs|unsigned_abs|magnitude|wrapping_abs|saturating_abs)$", c) for c in calls):
+            bad.append(var)
+        if any(re.search(r"^<(isize|i\d+) as .*>::abs$|<impl (isize|i\d+)>::abs$", c) for c in calls):
+            bad.append(var + "(overflowing abs)")
+    if bad:
+        ck.bad("R13.13", "R13.13@SparqlNumber::abs#arms:%s" % ",".join(bad), "the arm(s) %s of SparqlNumber::abs do not apply a (non-overflowing) "
+               "absolute-value operation while their siblings do: ABS of such a number is wrong or panics" % bad, fn.loc)
+    else:
+        ck.ok("R13.13", "SparqlNumber::abs: all %d arms apply an absolute-value operation" % len(targets))
+
+
 def run(ck, facts, tier):
     facts.require_crates(["sophia_sparql"])
+    sibling_arms_rule(ck, facts)
     literal_parsing_rule(ck, facts)
     error_semantics_rule(ck, facts)
     value_class_rule(ck, facts)
